@@ -11,9 +11,12 @@ import (
 	"strings"
 	"sync"
 
+	"github.com/dave/dst"
 	"github.com/dave/dst/decorator"
 	"github.com/dave/dst/decorator/resolver"
+	"github.com/dave/dst/decorator/resolver/gobuild"
 	"github.com/dave/dst/decorator/resolver/guess"
+	"go/build"
 )
 
 // C16 on the implementation (this binary is built with -race by bin/check; GORACE log_path
@@ -81,6 +84,28 @@ func c16Check(in c16Input) (key, what string) {
 				if got[i] != want[i] {
 					return "c16-result", fmt.Sprintf("round %d, file %d: the concurrent result differs from the result of the same call made alone:\n%s", round, i, firstDiff(want[i], got[i]))
 				}
+			}
+		}
+	case "gobuild-default-context":
+		before := build.Default
+		for _, dir := range []string{"/work/one", "/work/two"} {
+			res := gobuild.New(dir)
+			res.FindPackage = func(ctxt *build.Context, importPath, fromDir string, mode build.ImportMode) (*build.Package, error) {
+				return &build.Package{Name: importPath[strings.LastIndex(importPath, "/")+1:]}, nil
+			}
+			f, err := decorator.NewDecoratorWithImports(token.NewFileSet(), "example.com/self", goastNew()).Parse(in.Srcs[0])
+			if err != nil {
+				return "", ""
+			}
+			f.Decls = append(f.Decls, &dst.GenDecl{Tok: token.VAR, Specs: []dst.Spec{&dst.ValueSpec{Names: []*dst.Ident{dst.NewIdent("w")}, Values: []dst.Expr{&dst.Ident{Name: "G", Path: "root/other"}}}}})
+			var buf bytes.Buffer
+			if err := decorator.NewRestorerWithImports("example.com/self", res).Fprint(&buf, f); err != nil {
+				return "c16-result", "restoring with a gobuild resolver failed: " + err.Error()
+			}
+			if build.Default.Dir != before.Dir || build.Default.GOPATH != before.GOPATH || build.Default.GOROOT != before.GOROOT {
+				d := build.Default.Dir
+				build.Default = before
+				return "c16-global-state", fmt.Sprintf("a restore with gobuild.New(%q) left build.Default.Dir = %q (it was %q): separate resolvers communicate through a process-wide value", dir, d, before.Dir)
 			}
 		}
 	case "shared-views":
@@ -250,6 +275,16 @@ func c16Prop(c *Ctx) {
 			c.Res.fail(key, what, in)
 		}
 	}
+	// the build-context resolver (gobuild) with the default context works on the process-wide
+	// build.Default: a restore must leave it as it found it
+	{
+		in := c16Input{Mode: "gobuild-default-context", Srcs: []string{"package a\n\nimport \"root/lib\"\n\nvar v = lib.F()\n"}}
+		c.Res.Evaluations++
+		c.Res.hist("c16", "gobuild-default-context")
+		if key, what := c16Check(in); key != "" {
+			c.Res.fail(key, what, in)
+		}
+	}
 	for g := 0; g < c.N(12); g++ {
 		in := c16Input{Mode: "shared-views", Rounds: 2, Srcs: genSharedViews(c.Rng)}
 		c.Res.Evaluations++
@@ -275,6 +310,9 @@ func c16Prop(c *Ctx) {
 			Alias: map[string]string{"root/b": "x"}, Resolver: map[string]string{"root/a": "a", "root/b": "b"}},
 		{Local: "example.com/local", Used: []string{"root/a", "root/b", "root/c"},
 			Alias: map[string]string{"root/a": "x", "root/b": "x", "root/c": "x"}, Resolver: map[string]string{"root/a": "a", "root/b": "b", "root/c": "c"}},
+		// a package and its sub-package under one name: the order of required paths must be total
+		{Local: "example.com/local", Used: []string{"ex.com/foo/v2", "ex.com/foo", "ex.com/foo/v2/sub"},
+			Alias: map[string]string{}, Resolver: map[string]string{"ex.com/foo": "foo", "ex.com/foo/v2": "foo", "ex.com/foo/v2/sub": "foo"}},
 		{Local: "example.com/local", Blocks: [][]icSpec{{{Path: "root/q", Alias: "b"}, {Path: "root/r", Alias: "b1"}}}, Paren: []bool{true}, Used: []string{"root/q", "root/b", "root/r"},
 			Alias: map[string]string{}, Resolver: map[string]string{"root/q": "q", "root/b": "b", "root/r": "r"}},
 	} {
